@@ -557,6 +557,7 @@ impl Engine for ResEngine {
       "probe.did_jwk_same_key_variants_resolved_together".to_owned(),
       "probe.handlers_replaced_before_use".to_owned(),
       "probe.wide_list".to_owned(),
+      "probe.did_text_with_blank_around".to_owned(),
     ];
     if tier == "thorough" {
       v.push("cover:perm4>=24".to_owned());
